@@ -177,7 +177,7 @@ impl TimeRound {
                 }
             }
         }
-        TimeRound { name: "c07.time_of_day", vals, days: vec![18_321, -1, MAX_DAY, MIN_DAY + 1] }
+        TimeRound { name: "c07.time_of_day", vals, days: vec![18_321, -1, MAX_DAY, MIN_DAY + 1, MIN_DAY] }
     }
 }
 
@@ -495,7 +495,7 @@ impl Space for DiffRound {
 }
 
 pub fn spaces(env: &Env) -> Vec<Box<dyn Space>> {
-    vec![Box::new(TimeRound::new(env.tier)), Box::new(InstantRound::new(env.tier)), Box::new(DiffRound::new(env.tier))]
+    vec![Box::new(TimeRound::new(env.tier)), Box::new(InstantRound::new(env.tier)), Box::new(DiffRound::new(env.tier)), Box::new(crate::checks::c08::CalendarTies { name: "c07.calendar_increments" })]
 }
 
 pub fn run(env: &Env) -> i32 {
